@@ -106,6 +106,13 @@ def first_mismatch(prop, lines, impl_obs, mod_obs, full=False):
     return None, None
 
 
+def _has_unlock(line):
+    t = line.split()
+    if len(t) > 2 and t[0] == "on" and t[2] == "unlock":
+        return True
+    return any(":" in tok and gen.has_unlock(tok) for tok in t[1:])
+
+
 def examine(prop, r, mobs, mbits):
     """diff, invariant bits and monitors for one executed history; returns (failures, stats)"""
     fails = []
@@ -132,6 +139,9 @@ def examine(prop, r, mobs, mbits):
     # invariant bits of the model state the implementation was just shown to agree with
     if j is None and st is not None:
         stop = {pi: monitors.first_ok_set_size(ps) for pi, ps in enumerate(st.pools)}
+        # the first line that calls unlock() or hands user code that does to a pool: from there on the invariant of sealed
+        # pools (bit 14) and "no task is ever lost" (bit 2) are not claimed (known finding R9 needs an unlock())
+        first_unlock = next((k for k, ln in enumerate(r["lines"]) if _has_unlock(ln)), None)
         for k, b in enumerate(mbits):
             if not b:
                 continue
@@ -148,11 +158,13 @@ def examine(prop, r, mobs, mbits):
                 bad = pbit == "0" or (sbit == "0" and fixed)
                 if len(g) >= 9:
                     names = ["slot", "phase", "lost", "registries", "life-cycle", "map-books", "accounting", "flush", "wake-up",
-                             "cancelled-spawners-stopped", "snapshot-kept", "snapshot-taken", "want", "sched"]
+                             "cancelled-spawners-stopped", "snapshot-kept", "snapshot-taken", "want", "sched", "seal"]
                     for idx in (3, 4, 5, 6, 7, 9, 10, 11, 12, 13):
                         if idx < len(g) and g[idx] == "0":
                             bad = True
                     if g[8] == "0" and fixed:
+                        bad = True
+                    if (first_unlock is None or k < first_unlock) and (g[2] == "0" or (len(g) > 14 and g[14] == "0")):
                         bad = True
                     detail = f"pool {pi} bits {g} (" + ",".join(n for n, c in zip(names, g) if c == "0") + ")"
                 else:
